@@ -48,14 +48,16 @@ ASSUMPTIONS = [
 EXHAUSTIVE_NOTE = ('core: each of the ~125 matcher primitives and ~105 transformer primitives is applied to each of '
                    'the 64 corpus texts in both tiers (seed independent)')
 MIN_OBS = {
-    'quick': {'evaluations': 20000, 'classes': 2000, 'c05.matcher_verdicts': 9000, 'c05.transformer_outputs': 6000,
+    'quick': {'evaluations': 20000, 'classes': 2000, 'c05.exactly_lib_is_from_VERIF_REPO': 1,
+              'c05.matcher_verdicts': 9000, 'c05.transformer_outputs': 6000,
               'c05.wrong_polarity_FAIL_observed': 250,
               'c05.src.m.file': 1000, 'c05.src.m.act': 1000, 'c05.src.m.acterr': 500, 'c05.src.m.prog': 1000,
               'c05.src.m.lit': 500,
               'c05.src.t.file': 1000, 'c05.src.t.str': 200, 'c05.src.t.heredoc': 500, 'c05.src.t.prog': 1000,
               'c05.equals.str': 100, 'c05.equals.eol': 50, 'c05.equals.heredoc': 100, 'c05.equals.file': 300,
               'c05.equals.prog': 300},
-    'thorough': {'evaluations': 120000, 'classes': 3000, 'c05.matcher_verdicts': 80000,
+    'thorough': {'evaluations': 120000, 'classes': 3000, 'c05.exactly_lib_is_from_VERIF_REPO': 1,
+                 'c05.matcher_verdicts': 80000,
                  'c05.transformer_outputs': 35000, 'c05.wrong_polarity_FAIL_observed': 2500,
                  'c05.src.m.file': 10000, 'c05.src.m.act': 10000, 'c05.src.m.acterr': 5000, 'c05.src.m.prog': 10000,
                  'c05.src.m.lit': 5000,
@@ -921,6 +923,12 @@ def run_case(case, ctx):
 def setup_worker(ctx):
     """Coverage counters only (no verdict depends on them): which of the four comparison strategies of `equals`
     (external dependencies on neither / only the tested / only the expected / both texts) the cases drove."""
+    ctx.get_session()  # imports vf.driver, which puts ${VERIF_REPO:-/repo}/src first on sys.path
+    common.put_repo_first_on_path()
+    import exactly_lib
+    if not os.path.realpath(exactly_lib.__file__).startswith(os.path.realpath(common.REPO_SRC) + os.sep):
+        raise RuntimeError('exactly_lib imported from %s, not from %s' % (exactly_lib.__file__, common.REPO_SRC))
+    ctx.count('c05.exactly_lib_is_from_VERIF_REPO')
     try:
         from exactly_lib.impls.types.string_matcher.impl import equality
         targets = [(equality._ApplierWExtDepsCases, '_ext_deps__none', 'neither'),
